@@ -624,12 +624,17 @@ fn gen_shortcut_raw(rng: &mut Rng, cfg: &GenCfg) -> Node {
             // one character, or a fixed-length cluster of two (give-back then goes in steps of two)
             let b = if rng.chance(1, 2) { single(rng) } else { Node::NcGroup(Box::new(Node::Cat(vec![ch(rng), ch(rng)]))) };
             let rep = Node::Repeat { body: Box::new(b.clone()), min: n, max: Some(n + rng.below(2)), greedy: true, spell: 1 };
-            if rng.chance(1, 2) {
+            let mut v = if rng.chance(1, 2) {
                 // followed by the repeated term itself: giving back below the minimum would still match
-                Node::Cat(vec![rep, b])
+                vec![rep, b]
             } else {
-                Node::Cat(vec![rep, ch(rng), ch(rng)])
+                vec![rep, ch(rng), ch(rng)]
+            };
+            if rng.chance(1, 3) {
+                // anchored: the terms after the repetition are pinned to fixed offsets
+                v.insert(0, Node::Bol);
             }
+            Node::Cat(v)
         }
         // nested sequences feeding preconditions: group / repeat first, literal later
         6 => {
